@@ -450,7 +450,103 @@ def rules_final(run):
     run.floor(n, 2, r, 'writers of _initialized')
 
 
+MEMO_FIXTURE = [
+    ('sismic/interpreter/default.py', "        self._configuration = set()  # type: Set[str]\n",
+     "        self._configuration = set()  # type: Set[str]\n        self._fixture_sorted = None\n"),
+    ('sismic/interpreter/default.py', "        return sorted(self._configuration, key=lambda s: (self._statechart.depth_for(s), s))",
+     "        if self._fixture_sorted is None:\n            self._fixture_sorted = sorted(self._configuration, key=lambda s: (self._statechart.depth_for(s), s))\n"
+     "        return list(self._fixture_sorted)"),
+]
+
+
+def interpreter_memo_findings(prog):
+    """Fields of Interpreter that memoise a value computed from other interpreter fields (`if self.X is None: self.X = E`, or a keyed fill under `not in`):
+    [(memo field, dependency field, function, write node)] for every write of a dependency that is not followed at once - before any call that could run
+    statechart code or read the memo - by an invalidation of the memo. (A memo dropped at the start of a step only is refilled mid-step by `active(..)` in an
+    action or a contract and then reports a configuration the interpreter has left.)"""
+    ci = prog.cls('Interpreter')
+    fields = set()
+    for m in ci.methods.values():
+        for c, f, k, n in prog.direct_writes(m):
+            if c == 'Interpreter':
+                fields.add(f)
+    memos = {}
+    for m in ci.methods.values():
+        if m.name == '__init__':
+            continue
+        for st in q.walk(m.node, False):
+            if not (isinstance(st, ast.Assign) and isinstance(st.targets[0], (ast.Attribute, ast.Subscript))):
+                continue
+            tgt = st.targets[0]
+            base = tgt if isinstance(tgt, ast.Attribute) else tgt.value
+            if not (isinstance(base, ast.Attribute) and q.unparse(base.value) == 'self'):
+                continue
+            X = base.attr
+            at = guard_atoms(st)
+            fill = any((a[0] == 'is' and a[1] == 'self.' + X and a[2] == 'None') or (a[0] == 'falsy' and a[1] == 'self.' + X) or (a[0] == 'not in' and a[2] == 'self.' + X) for a in at)
+            if not fill:
+                continue
+            deps = {n.attr for n in ast.walk(st.value) if isinstance(n, ast.Attribute) and q.unparse(n.value) == 'self' and n.attr in fields and n.attr != X}
+            memos.setdefault(X, set()).update(deps)
+    out = []
+    for X, deps in memos.items():
+        def invalidates(st):
+            if isinstance(st, ast.Assign) and q.unparse(st.targets[0]) == 'self.' + X and (isinstance(st.value, ast.Constant) and st.value.value is None or isinstance(st.value, (ast.Dict, ast.List))):
+                return True
+            if isinstance(st, ast.Expr) and isinstance(st.value, ast.Call) and q.unparse(st.value.func) in ('self.%s.clear' % X,):
+                return True
+            if isinstance(st, ast.Delete) and any(q.unparse(t) == 'self.' + X for t in st.targets):
+                return True
+            return False
+        for m in ci.methods.values():
+            if m.name == '__init__':
+                continue
+            for c, f, k, n in prog.direct_writes(m):
+                if c != 'Interpreter' or f not in deps:
+                    continue
+                st = n if isinstance(n, ast.stmt) else q.enclosing_stmt(n)
+                blk = q.block_of(st)
+                okk = False
+                if blk is not None:
+                    for nxt in blk[blk.index(st) + 1:]:
+                        if invalidates(nxt):
+                            okk = True
+                            break
+                        if any(isinstance(x, ast.Call) for x in ast.walk(nxt)) or isinstance(nxt, (ast.Return, ast.Raise, ast.For, ast.While, ast.If, ast.Try, ast.With)):
+                            break
+                    # .. or just before the write, with nothing but the write in between
+                    idx = blk.index(st)
+                    if not okk and idx > 0 and invalidates(blk[idx - 1]) and not any(
+                            isinstance(x, ast.Call) and x is not n and not q.in_node(n, x) for x in ast.walk(st) if x is not getattr(st, 'value', None)):
+                        okk = True
+                if not okk:
+                    out.append((X, f, m, n))
+    return memos, out
+
+
+def rules_memo(run, rid='C02.10'):
+    from ..selftest.runner import apply_edits
+    from ..loader import Tree
+    from ..prog import Program
+    prog = run.prog
+    r = run.rule(rid, 'a field of the interpreter that memoises something computed from the active configuration (or from any other field of the interpreter) is dropped '
+                           'at every write of what it is computed from, before any statechart code can run - the configuration reported mid-step and afterwards is the real one')
+    memos, found = interpreter_memo_findings(prog)
+    for X, f, m, n in found:
+        run.fail(r, m.short, 'memo %s survives write of %s: %s' % (X, f, q.unparse(n)[:40]), 'self.%s is computed from self.%s, which is written here without dropping the memo right '
+                 'away: code run later in the step (an action or a contract calling active(..), a listener) refills or reads a stale value' % (X, f), n)
+    run.ok(r, 'Interpreter', '%d memo field(s) on the interpreter: %s' % (len(memos), sorted(memos)), None)
+    ov = apply_edits(MEMO_FIXTURE)
+    if ov is None:
+        run.note(rid + ': positive fixture not applicable to the current text of Interpreter.configuration (detector not re-proved on this run)')
+    else:
+        _, f2 = interpreter_memo_findings(Program(Tree(root=run.tree.root, overlay=dict(run.tree.overlay, **ov))))
+        run.floor(len(f2), 2, r, 'findings on the positive fixture (memoised sorted configuration, never dropped)')
+        run.ok(r, 'fixture', 'detector fires on the in-memory fixture', None)
+
+
 def check(run):
+    run.guard(rules_memo, run)
     from . import c06
     run.guard(c06.rules_save, run, 'C02', ('.8a', '.8b', '.8c'))
     run.guard(rules_owner, run)
